@@ -103,6 +103,7 @@ func scenario(c cfg) vrt.Scenario {
 		var startAt int64
 		evals := 0
 		sum := 0
+		lastVal, lastAt := 0, int64(0)
 		beginsAt := map[int64]int{}
 		valueAt := map[int64]int{}
 		for _, ev := range o.Log {
@@ -123,6 +124,7 @@ func scenario(c cfg) vrt.Scenario {
 				}
 				evals++
 				sum += v
+				lastVal, lastAt = v, t
 				valueAt[t] += v
 				if lim := 1 + int((t-first)/int64(c.interval)); evals > lim {
 					o.Fail("C09/cadence", "more-than-one-per-interval", fmt.Sprintf("%d evaluations by %dns after the first with interval %s (at most %d)", evals, t-first, c.interval, lim))
@@ -137,11 +139,15 @@ func scenario(c cfg) vrt.Scenario {
 		}
 		if o.Cost == 0 {
 			want := 1 + int((c.length-1)/c.interval) // ticks strictly before the deadline
-			tie := c.length%c.interval == 0               // a tick due exactly at the deadline may or may not be served
+			tie := c.length%c.interval == 0          // a tick due exactly at the deadline may or may not be served
 			if evals != want && !(tie && evals == want+1) {
 				o.Fail("C09/cadence", "skipped-or-extra-on-default-schedule", fmt.Sprintf("%d evaluations in %s with interval %s, want %d", evals, c.length, c.interval, want))
 			}
-			if w.started+dropped != sum {
+			atDeadline := tie && evals == want+1 // that last evaluation raced the deadline: its request may have been refused
+			if atDeadline {
+				delete(valueAt, lastAt)
+			}
+			if w.started+dropped != sum && !(atDeadline && w.started+dropped == sum-lastVal) {
 				o.Fail("C09/value-is-request", "not-unchanged", fmt.Sprintf("started %d + dropped %d, sum of evaluated values %d", w.started, dropped, sum))
 			}
 			if c.slow > 0 {
